@@ -154,7 +154,11 @@ func otherLiterals() []literal {
 	// number-like tokens of wrong syntax: a digit outside the base, a letter glued to a number, a bare base
 	// prefix. No item type can represent them and they are not two values either (values are separated by blanks).
 	for _, v := range []string{"0b12", "0b2", "0b102", "0b19", "-0b12", "0o8", "0o79", "0o18", "-0o79", "0o1018", "0B12", "0O79",
-		"0x1G", "0xG", "12ab", "1x", "1_000", "0b", "0x", "0o", "0b1_", "0o7_", "0b1x", "0b01b", "0o17o", "0b1T", "0o7F", "1T"} {
+		"0x1G", "0xG", "12ab", "1x", "1_000", "0b", "0x", "0o", "0b1_", "0o7_", "0b1x", "0b01b", "0o17o", "0b1T", "0o7F", "1T",
+		// two numbers glued together by a sign or a point are not two values
+		"1.2.3", "192.168.0.1", "2e28.2", "0x1Fe+5", "1-2", "1+2", "1.5-2", "5.5.5", "1e5.0", "0b1-1", "3-", "3+",
+		// a line end inside the quotes (also directly after the opening quote) leaves the string unclosed
+		"\"\n\"", "\"\r\"", "\"\r\n\"", "\"a\nb\"", "\"a\n\"", "\"\na\""} {
 		out = append(out, literal{Text: v, Class: "malformed"})
 	}
 	return out
